@@ -28,6 +28,7 @@ type memVec struct {
 
 type memTarget struct {
 	S string
+	U string // non-ASCII, no escape
 	E string // a string that needs unescaping: always a copy
 	N json.Number
 	R json.RawMessage
@@ -43,12 +44,12 @@ func (t *memTarget) dump() string {
 	if t.P != nil {
 		p = *t.P
 	}
-	return fmt.Sprintf("%q|%q|%q|%q|%q|%q|%#v|%q|%q", t.S, t.E, string(t.N), string(t.R), string(t.B), fmt.Sprint(t.M), t.A, p, t.L)
+	return fmt.Sprintf("%q|%q|%q|%q|%q|%q|%q|%#v|%q|%q", t.S, t.U, t.E, string(t.N), string(t.R), string(t.B), fmt.Sprint(t.M), t.A, p, t.L)
 }
 
 func memDoc(k int) []byte {
-	return []byte(fmt.Sprintf(`{"S":"plain string number %d long enough to matter","E":"esc\né %d","N":12345678%d,"R":{"raw":[%d,"x"]},"B":"aGVsbG8gd29ybGQ=",`+
-		`"M":{"key%d":"value%d","k2":"v2"},"A":{"any":["str%d",1.5,{"deep":"s"}]},"P":"pointer %d","L":["l%d","second"]}`, k, k, k, k, k, k, k, k, k))
+	return []byte(fmt.Sprintf(`{"S":"plain string number %d long enough to matter","U":"héllo wörld ünïcödé no escapes %d","E":"esc\né %d","N":12345678%d,"R":{"raw":[%d,"x"]},"B":"aGVsbG8gd29ybGQ=",`+
+		`"M":{"key%d":"value%d","k2":"v2","clé é":"vàlue"},"A":{"any":["str%d",1.5,{"deep":"s","ünï":"çödé"}]},"P":"pointer %d","L":["l%d","sécond"]}`, k, k, k, k, k, k, k, k, k, k))
 }
 
 type memResult struct {
